@@ -259,7 +259,16 @@ fn evo_one(reg: &HashMap<String, Entry>, rec: &Value, cx: &mut Ctx) {
                         cx.fail(&format!("c03.value.{}", tag), format!("loaded={:?} expected={:?}", back, expect));
                     }
                 }
-                other => cx.fail(&format!("c03.load.{}", tag), format!("{:?}", other)),
+                other => {
+                    // C05 (converse clause): program j's schema at version i describes exactly the layout program i wrote
+                    // (that is what EvolutionLoad proves on the model), so the schema gate must let the file through
+                    if let Outcome::Err(c, _) = &other {
+                        if c == "IncompatibleSchema" && mode != Mode::NoSchema {
+                            cx.fail(&format!("c05.evolved_rejected.{}", tag), format!("{:?}", other));
+                        }
+                    }
+                    cx.fail(&format!("c03.load.{}", tag), format!("{:?}", other))
+                }
             }
         }
     }
